@@ -17,11 +17,21 @@
  *  linked   T limits llwrite <fixed> <len> <pos> <n>        => <n|fail> <len'> <posn'>     (Hseek(pos); Hwrite(n) on a linked-block element)
  *  refs     T limits tagnewref <nused> <holes> => <ref>     refs 1..nused of one tag in use except <holes>
  *           T limits newref <maxref> <list l - | range nused holes> <refs of other tags> => <ref>
+ *  refhist / refexh (files with history across maxref = 65535, and up to exhaustion; runs = `-` or `a`/`a-b` items, one descriptor per number):
+ *           T limits refinit <maxref> <runs>          => ok                 model state := the descriptors of the file as they are
+ *           T limits refput <ref> <n>                 => ok <maxref>        n descriptors with an explicit number were created
+ *           T limits refdel <ref> <n>                 => ok                 n descriptors with this number were deleted
+ *           T limits refalloc <api> <n>               => <ref|0> <maxref>   Hnewref / VSattach(-1) / Vattach(-1) / GRcreate / SDcreate, then n descriptors
+ *           T limits refstate                         => <maxref> <runs>    canonical text of all descriptors in use
+ *           T limits refreopen <maxref> <runs>        => ok                 after Hclose + Hopen: the same descriptors (maxref is recomputed)
  *  vgins    T limits vgins <nvelt> => <ok|fail> <nvelt'>
  *  fdefine  T limits fdefine <isize> <order> => ok|fail
  *  setfields T limits setfields <n> <sizes> => <ok|fail> <nfields>
  *  names    T limits name <api> <len> => <ok|fail> <stored> <reopened>
  *  sdrank   T limits sdrank <rank> => ok|fail
+ *  ndds     T limits ndds <req> => <ndds|fail>          Hopen(DFACC_CREATE, (int16)req): descriptors per DD block
+ *  sdcount  T limits sdvar <count> => ok|fail           SDcreate with <count> data sets in the file (H4_MAX_NC_VARS)
+ *           T limits sdattr <count> => ok|fail          SDsetattr of a new name with <count> attributes in the list (H4_MAX_NC_ATTRS)
  *  maxopen  T limits maxopen <syslimit> <o<i>|c<i>|r<n>|d<i> ...> => <s<slot>|ok|fail|<n>> ...   (open/close/reset/use file i)
  */
 #ifndef HFILE_C
@@ -31,6 +41,10 @@
 #define HFILEDD_C "hdf/src/hfiledd.c"
 #endif
 #include HFILE_C
+/* the wildcard search of the DD list: once the reference counter is at its limit EVERY Hnewref walks the list for each candidate number, 2*10^9 steps
+   when all numbers are in use.  This one function is compiled without sanitizer instrumentation here (3.4 times faster: 1.7 s instead of 5.6 s per
+   exhausted search), so that the exhaustion cases fit the quick tier; engine dd (C12) runs it instrumented. */
+static int HTIfind_dd(filerec_t *, uint16, uint16, dd_t **, int) __attribute__((no_sanitize("address", "undefined"), optimize("O2")));
 #include HFILEDD_C
 #ifdef MUT_VPARSE
 #include MUT_VPARSE
@@ -482,6 +496,496 @@ static void case_refs(int k)
     remove(path);
 }
 
+/* ------------------------------------------------------------------------------------------------ reference numbers across the limit */
+/* After `maxref` reached 65535 Hnewref no longer counts but searches the DD list for a number no descriptor uses; every "create a new object"
+ * entry point (VSattach(-1), Vattach(-1), GRcreate, SDcreate ...) then depends on that search.  The two case kinds below drive files WITH HISTORY
+ * across the limit (descriptors not in ascending order of their numbers: explicit numbers in any order, deleted objects whose slots are taken by
+ * later ones, several tags with one number, numbers handed out but never written, close/reopen) and up to exhaustion (all 65535 numbers in use).
+ * Model H4.Limits.RefSt (refPut / refDel / refAlloc): the engine reports every creation and deletion, the model answers which number each new
+ * object must get (0 = refused) and, at `refstate` / `refreopen`, which descriptors the file must hold.
+ * Implementation-side oracles (independent of the model): a number handed out is carried by no descriptor and no live object
+ * (limits-ref-in-use:<api>), a call at exhaustion fails (limits-noref-not-refused:<api>), and every object created earlier still reads back
+ * (limits-wrap-object-damaged / -lost), also after close + reopen. */
+typedef struct { int kind, tag, ref, live, n; int32 vals[6]; int mt[3], mr[3]; char name[24]; } robj_t;   /* kind 0 raw, 1 vdata, 2 vgroup */
+static robj_t ro[256];
+static int nro, ro_serial;
+static int rcount[65536];
+static int ref_dead;   /* a collision was reported: stop this file's history */
+
+static void ref_count(filerec_t *fr)
+{
+    memset(rcount, 0, sizeof rcount);
+    for (ddblock_t *b = fr->ddhead; b; b = b->next)
+        for (int i = 0; i < b->ndds; i++) if (b->ddlist[i].tag != DFTAG_NULL) rcount[b->ddlist[i].ref]++;
+}
+/* canonical text of the numbers of all descriptors in use: runs of the numbers in use, then of those in use at least twice, ... */
+static void ref_runs_print(filerec_t *fr)
+{
+    ref_count(fr);
+    int first = 1;
+    for (int layer = 1;; layer++) {
+        int any = 0;
+        for (int r = 0; r <= 65535;) {
+            if (rcount[r] < layer) { r++; continue; }
+            int e = r; while (e < 65535 && rcount[e + 1] >= layer) e++;
+            if (e > r) printf("%s%d-%d", first ? "" : ",", r, e); else printf("%s%d", first ? "" : ",", r);
+            first = 0; any = 1; r = e + 1;
+        }
+        if (!any) break;
+    }
+    if (first) printf("-");
+}
+static void t_refinit(int32 fid) { filerec_t *fr = HAatom_object(fid); printf("T limits refinit %d ", (int)fr->maxref); ref_runs_print(fr); printf(" => ok\n"); }
+static void t_refstate(int32 fid) { filerec_t *fr = HAatom_object(fid); printf("T limits refstate => %d ", (int)fr->maxref); ref_runs_print(fr); printf("\n"); }
+static void t_refreopen(int32 fid) { filerec_t *fr = HAatom_object(fid); printf("T limits refreopen %d ", (int)fr->maxref); ref_runs_print(fr); printf(" => ok\n"); }
+static int maxref_of(int32 fid) { return (int)((filerec_t *)HAatom_object(fid))->maxref; }
+static void t_refalloc(int32 fid, const char *api, int n, int ref) { printf("T limits refalloc %s %d => %d %d\n", api, n, ref, maxref_of(fid)); }
+static void t_refput(int32 fid, int ref, int n) { printf("T limits refput %d %d => ok %d\n", ref, n, maxref_of(fid)); }
+static void t_refdel(int ref, int n) { printf("T limits refdel %d %d => ok\n", ref, n); }
+
+static int ro_ref_live(int ref) { for (int i = 0; i < nro; i++) if (ro[i].live && ro[i].ref == ref) return 1; return 0; }
+static int ro_tagref_live(int tag, int ref) { for (int i = 0; i < nro; i++) if (ro[i].live && ro[i].kind == 0 && ro[i].tag == tag && ro[i].ref == ref) return 1; return 0; }
+/* the number `ref` was handed out by `api`: no descriptor (counted before the call) and no live object may carry it */
+static int fresh_check(const char *api, int ref, int used_before)
+{
+    if (ref == 0) return 0;
+    if (used_before || ro_ref_live(ref)) {
+        char key[64]; snprintf(key, sizeof key, "limits-ref-in-use:%s", api);
+        hk_fail(key, "%s was given the reference number %d which %s", api, ref, ro_ref_live(ref) ? "belongs to an object created earlier" : "a descriptor of the file carries");
+        ref_dead = 1;
+        return 1;
+    }
+    return 0;
+}
+static int used_now(int32 fid, int ref) { filerec_t *fr = HAatom_object(fid);
+    for (ddblock_t *b = fr->ddhead; b; b = b->next) for (int i = 0; i < b->ndds; i++) if (b->ddlist[i].tag != DFTAG_NULL && b->ddlist[i].ref == ref) return 1;
+    return 0; }
+/* lowest number no descriptor carries (what the search must find), 0 = none: straight from the DD list, for the oracles only */
+static int lowest_free(int32 fid) { ref_count(HAatom_object(fid)); for (int r = 1; r <= 65535; r++) if (!rcount[r]) return r; return 0; }
+
+static robj_t *ro_new(int kind)
+{
+    if (nro >= (int)(sizeof ro / sizeof ro[0])) return NULL;
+    robj_t *o = &ro[nro++]; memset(o, 0, sizeof *o); o->kind = kind; o->live = 0;
+    snprintf(o->name, sizeof o->name, "%s%d", kind == 1 ? "vd" : kind == 2 ? "vg" : "raw", ro_serial++);
+    o->n = (int)hk_range(1, 6); for (int i = 0; i < 6; i++) o->vals[i] = (int32)hk_range(-100000, 100000);
+    return o;
+}
+/* raw element: explicit number (ref > 0) or one asked from Hnewref (ref == 0); returns 0 when refused */
+static int mk_raw(int32 fid, int tag, int ref)
+{
+    robj_t *o = ro_new(0); if (!o) return 0;
+    o->tag = tag;
+    if (ref == 0) {
+        int before_free = lowest_free(fid);
+        ref = Hnewref(fid);
+        int ub = ref ? rcount[ref] : 0;
+        if (ref && Hputelement(fid, (uint16)tag, (uint16)ref, (uint8 *)o->vals, o->n * 4) == FAIL) { hk_fail("limits-followup", "Hputelement(%d,%d) with a number from Hnewref", tag, ref); ref = 0; }
+        t_refalloc(fid, "hnewref", ref ? 1 : 0, ref);
+        if (ref == 0 && before_free && maxref_of(fid) == 65535) hk_fail("limits-newref-zero-although-free", "Hnewref returned 0, number %d is free", before_free);
+        if (fresh_check("hnewref", ref, ub)) ref = 0;
+    }
+    else {
+        if (Hputelement(fid, (uint16)tag, (uint16)ref, (uint8 *)o->vals, o->n * 4) == FAIL) { hk_fail("limits-ref-create", "Hputelement(%d,%d)", tag, ref); nro--; return 0; }
+        t_refput(fid, ref, 1);
+    }
+    if (!ref) { nro--; return 0; }
+    o->ref = ref; o->live = 1;
+    return ref;
+}
+/* vdata in two steps, so that several can be open at once: attach (DFTAG_VS descriptor), finish (records + DFTAG_VH descriptor) */
+static int32 vd_attach(int32 fid, robj_t **po)
+{
+    robj_t *o = ro_new(1); *po = o; if (!o) return FAIL;
+    int before_free = lowest_free(fid);
+    int32 vs = VSattach(fid, -1, "w");
+    int ref = vs == FAIL ? 0 : (int)VSQueryref(vs);
+    int ub = ref > 0 ? rcount[ref] : 0;
+    t_refalloc(fid, "vsattach", 1, ref < 0 ? 0 : ref);
+    if (vs != FAIL && ref <= 0) { hk_fail("limits-noref-not-refused:vsattach", "VSattach(-1,\"w\") returns a vdata without a reference number (%d)", ref); ref_dead = 1; VSdetach(vs); nro--; *po = NULL; return FAIL; }
+    if (vs == FAIL && (before_free || maxref_of(fid) < 65535)) hk_fail("limits-newref-zero-although-free", "VSattach(-1,\"w\") fails, number %d is free", before_free);
+    if (vs != FAIL && fresh_check("vsattach", ref, ub)) { /* do not write over the other object */ o->ref = ref; return vs; }
+    if (vs == FAIL) { nro--; *po = NULL; return FAIL; }
+    o->ref = ref; o->tag = DFTAG_VH; o->live = 1;
+    return vs;
+}
+static void vd_finish(int32 fid, int32 vs, robj_t *o)
+{
+    if (!o->live) { VSdetach(vs); t_refinit(fid); return; }   /* collision reported: whatever the detach does, start again from the file as it is */
+    int ok = VSsetname(vs, o->name) != FAIL && VSfdefine(vs, "X", DFNT_INT32, 1) != FAIL && VSsetfields(vs, "X") != FAIL
+          && VSwrite(vs, (uint8 *)o->vals, o->n, FULL_INTERLACE) == o->n;
+    if (VSdetach(vs) == FAIL || !ok) hk_fail("limits-followup", "vdata %s (number %d) could not be written", o->name, o->ref);
+    t_refput(fid, o->ref, 1);
+}
+static int32 vg_attach(int32 fid, robj_t **po)
+{
+    robj_t *o = ro_new(2); *po = o; if (!o) return FAIL;
+    int before_free = lowest_free(fid);
+    int32 vg = Vattach(fid, -1, "w");
+    int ref = vg == FAIL ? 0 : (int)VQueryref(vg);
+    int ub = ref > 0 ? rcount[ref] : 0;
+    t_refalloc(fid, "vattach", 0, ref < 0 ? 0 : ref);
+    if (vg != FAIL && ref <= 0) { hk_fail("limits-noref-not-refused:vattach", "Vattach(-1,\"w\") returns a vgroup without a reference number (%d)", ref); ref_dead = 1; Vdetach(vg); nro--; *po = NULL; return FAIL; }
+    if (vg == FAIL && (before_free || maxref_of(fid) < 65535)) hk_fail("limits-newref-zero-although-free", "Vattach(-1,\"w\") fails, number %d is free", before_free);
+    if (vg != FAIL && fresh_check("vattach", ref, ub)) { o->ref = ref; return vg; }
+    if (vg == FAIL) { nro--; *po = NULL; return FAIL; }
+    o->ref = ref; o->tag = DFTAG_VG; o->live = 1;
+    o->n = (int)hk_range(0, 3);
+    for (int i = 0; i < o->n; i++) { o->mt[i] = 1200 + (int)hk_range(0, 2); o->mr[i] = (int)hk_range(1, 65535); }
+    return vg;
+}
+static void vg_finish(int32 fid, int32 vg, robj_t *o)
+{
+    if (!o->live) { Vdetach(vg); t_refinit(fid); return; }
+    int ok = Vsetname(vg, o->name) != FAIL;
+    for (int i = 0; i < o->n; i++) if (Vaddtagref(vg, o->mt[i], o->mr[i]) == FAIL) ok = 0;
+    if (Vdetach(vg) == FAIL || !ok) hk_fail("limits-followup", "vgroup %s (number %d) could not be written", o->name, o->ref);
+    t_refput(fid, o->ref, 1);
+}
+static void ro_delete(int32 fid, robj_t *o)
+{
+    int r = FAIL;
+    if (o->kind == 0) r = Hdeldd(fid, (uint16)o->tag, (uint16)o->ref);
+    else if (o->kind == 1) r = VSdelete(fid, o->ref);
+    else r = Vdelete(fid, o->ref);
+    if (r == FAIL) hk_fail("limits-followup", "%s (number %d) cannot be deleted", o->name, o->ref);
+    t_refdel(o->ref, o->kind == 1 ? 2 : 1);
+    o->live = 0;
+}
+/* every live object reads back as written */
+static int ro_verify(int32 fid, const char *when)
+{
+    int bad = 0;
+    for (int i = 0; i < nro && !bad; i++) {
+        robj_t *o = &ro[i]; if (!o->live) continue;
+        const char *why = NULL;
+        if (o->kind == 0) {
+            int32 back[6] = {0};
+            if (Hlength(fid, (uint16)o->tag, (uint16)o->ref) != o->n * 4) why = "has another length or is gone";
+            else if (Hgetelement(fid, (uint16)o->tag, (uint16)o->ref, (uint8 *)back) != o->n * 4 || memcmp(back, o->vals, (size_t)o->n * 4)) why = "has other bytes";
+        }
+        else if (o->kind == 1) {
+            int32 vs = VSattach(fid, o->ref, "r"); char nm[VSNAMELENMAX + 1] = ""; int32 nrec = -1, back[6] = {0};
+            if (vs == FAIL) why = "cannot be attached";
+            else {
+                VSgetname(vs, nm); VSinquire(vs, &nrec, NULL, NULL, NULL, NULL);
+                if (strcmp(nm, o->name)) why = "has another name";
+                else if (nrec != o->n) why = "has another number of records";
+                else if (VSsetfields(vs, "X") == FAIL || VSread(vs, (uint8 *)back, o->n, FULL_INTERLACE) != o->n || memcmp(back, o->vals, (size_t)o->n * 4)) why = "has other records";
+                VSdetach(vs);
+            }
+        }
+        else {
+            int32 vg = Vattach(fid, o->ref, "r"); char nm[64] = "";
+            if (vg == FAIL) why = "cannot be attached";
+            else {
+                Vgetname(vg, nm);
+                if (strcmp(nm, o->name)) why = "has another name";
+                else if (Vntagrefs(vg) != o->n) why = "has another number of members";
+                else for (int j = 0; j < o->n; j++) { int32 t = 0, r = 0; if (Vgettagref(vg, j, &t, &r) == FAIL || t != o->mt[j] || r != o->mr[j]) why = "has other members"; }
+                Vdetach(vg);
+            }
+        }
+        if (why) { hk_fail("limits-wrap-object-damaged", "%s: %s %s (number %d) %s", when, o->kind == 1 ? "vdata" : o->kind == 2 ? "vgroup" : "element", o->name, o->ref, why); bad = 1; }
+    }
+    /* and nothing was lost or doubled: as many vdatas / vgroups in the file as live objects */
+    if (!bad) {
+        int nvd = 0, nvg = 0, evd = 0, evg = 0; int32 r = -1;
+        while ((r = VSgetid(fid, r)) != FAIL) nvd++;
+        r = -1; while ((r = Vgetid(fid, r)) != FAIL) nvg++;
+        for (int i = 0; i < nro; i++) if (ro[i].live) { evd += ro[i].kind == 1; evg += ro[i].kind == 2; }
+        if (nvd != evd || nvg != evg) { hk_fail("limits-wrap-object-lost", "%s: the file holds %d vdatas and %d vgroups, %d and %d were stored", when, nvd, nvg, evd, evg); bad = 1; }
+    }
+    return bad;
+}
+static robj_t *ro_pick_live(void)
+{
+    int idx[256], n = 0;
+    for (int i = 0; i < nro; i++) if (ro[i].live) idx[n++] = i;
+    return n ? &ro[idx[hk_range(0, n - 1)]] : NULL;
+}
+/* two vgroups open at once: the first has no descriptor yet when the second asks for its number.  Implementation-side only (no T line for
+   the second request, the model state is reloaded afterwards): the second vgroup must get another number or be refused, never the same one */
+static void two_vgroups(int32 fid)
+{
+    robj_t *o, *o2;
+    int wrapped = maxref_of(fid) == 65535;
+    int32 a = vg_attach(fid, &o);
+    if (a == FAIL || ref_dead) { if (a != FAIL) Vdetach(a); return; }
+    int ra = o->ref;
+    o2 = ro_new(2);
+    if (!o2) { vg_finish(fid, a, o); return; }
+    int32 b = Vattach(fid, -1, "w");
+    int rb = b == FAIL ? 0 : (int)VQueryref(b);
+    if (b == FAIL) {   /* refused: the file is at its limit and cannot tell the number of the unwritten vgroup from a free one */
+        nro--;
+        if (!wrapped) hk_fail("limits-newref-zero-although-free", "a second Vattach(-1,\"w\") fails below the limit (maxref %d)", maxref_of(fid));
+        hk_stat("two_vgroups_second_refused", 1);
+        vg_finish(fid, a, o);
+        return;
+    }
+    if (rb == ra) {
+        hk_fail(wrapped ? "limits-wrap-ref-handed-out-twice:vattach" : "limits-ref-in-use:vattach",
+                "two vgroups created one after the other (the first not yet detached) both got the reference number %d", ra);
+        o->live = 0; nro--;
+        Vdetach(b); Vdetach(a);
+        ref_dead = 1;   /* the library now has two vgroup records under one number: this file's history ends here */
+        return;
+    }
+    ref_count(HAatom_object(fid));
+    if (rb <= 0 || rcount[rb] || ro_ref_live(rb)) { hk_fail("limits-ref-in-use:vattach", "the second of two open vgroups got the reference number %d which is in use", rb); o->live = 0; nro--; Vdetach(b); Vdetach(a); ref_dead = 1; return; }
+    o2->ref = rb; o2->tag = DFTAG_VG; o2->live = 1; o2->n = 0;
+    int ok = Vsetname(b, o2->name) != FAIL;
+    if (Vdetach(b) == FAIL || !ok) hk_fail("limits-followup", "second open vgroup (number %d) could not be written", rb);
+    t_refinit(fid);   /* the second request was not reported to the model */
+    vg_finish(fid, a, o);
+    hk_stat("two_vgroups_distinct", 1);
+}
+static int32 ref_reopen(int32 fid, const char *path, int cache_on)
+{
+    Vend(fid);
+    if (Hclose(fid) == FAIL) { hk_fail("limits-close-failed", "refs: Hclose"); return FAIL; }
+    fid = Hopen(path, DFACC_RDWR, 0);
+    if (fid == FAIL) { hk_fail("limits-reopen-failed", "refs: Hopen after close"); return FAIL; }
+    Hcache(fid, cache_on); Vstart(fid);
+    t_refreopen(fid);
+    return fid;
+}
+/* one random operation of a file's history */
+static void ref_op(int32 fid)
+{
+    int c = (int)hk_range(0, 99);
+    robj_t *o, *o2;
+    if (c < 16) { /* explicit number, any order: small ones (free or used under ANOTHER tag) and a few high ones */
+        int tag = 1200 + (int)hk_range(0, 2);
+        int ref = hk_chance(85) ? (int)hk_range(1, 40) : (int)hk_range(65530, 65535);
+        if (!ro_tagref_live(tag, ref) && !(used_now(fid, ref) && hk_chance(60))) mk_raw(fid, tag, ref);
+    }
+    else if (c < 30) mk_raw(fid, 1200 + (int)hk_range(0, 2), 0);
+    else if (c < 46) { int32 vs = vd_attach(fid, &o); if (vs != FAIL) vd_finish(fid, vs, o); }
+    else if (c < 58) { int32 vg = vg_attach(fid, &o); if (vg != FAIL) vg_finish(fid, vg, o); }
+    else if (c < 64) { /* two vdatas open at once, finished in either order */
+        int32 a = vd_attach(fid, &o), b = vd_attach(fid, &o2);
+        if (hk_chance(50)) { if (a != FAIL) vd_finish(fid, a, o); if (b != FAIL) vd_finish(fid, b, o2); }
+        else { if (b != FAIL) vd_finish(fid, b, o2); if (a != FAIL) vd_finish(fid, a, o); }
+    }
+    else if (c < 68) { if (maxref_of(fid) < 65534) two_vgroups(fid); }   /* beyond the limit: the closing step of the round (known finding, ends the history) */
+    else if (c < 72) { /* a number handed out and never used */
+        int bf = lowest_free(fid);
+        int r = Hnewref(fid); int ub = r ? rcount[r] : 0;
+        t_refalloc(fid, "hnewref", 0, r);
+        if (r == 0 && bf && maxref_of(fid) == 65535) hk_fail("limits-newref-zero-although-free", "Hnewref returned 0, number %d is free", bf);
+        fresh_check("hnewref", r, ub);
+    }
+    else if (c < 96) { if ((o = ro_pick_live()) != NULL) ro_delete(fid, o); }
+    else t_refstate(fid);
+}
+
+static void case_refhist(int k)
+{
+    for (int round = 0; round < 3; round++) {
+        char stem[32]; snprintf(stem, sizeof stem, "refh%d", round);
+        const char *path = casefile(stem, k);
+        static const int nddss[] = {4, 8, 16, 16, 64};
+        int cache_on = hk_chance(70);
+        int32 fid = Hopen(path, DFACC_CREATE, (int16)HK_PICK(nddss));
+        if (fid == FAIL) { hk_fail("limits-setup", "Hopen"); return; }
+        Hcache(fid, cache_on); Vstart(fid);
+        nro = 0; ro_serial = 0; ref_dead = 0;
+        t_refinit(fid);
+        /* 1: history below the limit */
+        int n1 = (int)hk_range(3, 24);
+        for (int i = 0; i < n1 && !ref_dead; i++) { if (hk_chance(4)) { if ((fid = ref_reopen(fid, path, cache_on)) == FAIL) return; } else ref_op(fid); }
+        /* 2: reach the limit */
+        robj_t *o;
+        switch ((int)hk_range(0, 6)) {
+            case 0: mk_raw(fid, 1203, 65535); break;                                                   /* an explicit 65535 */
+            case 1: mk_raw(fid, 1203, 65534); mk_raw(fid, 1200, 0); break;                            /* the counter itself hands out 65535 */
+            case 2: if (mk_raw(fid, 1203, 65535)) ro_delete(fid, &ro[nro - 1]); break;                /* 65535 was in use once: the counter stays, the number is free */
+            case 3: mk_raw(fid, 1203, 65533); for (int i = 0; i < 2; i++) { int r = Hnewref(fid); t_refalloc(fid, "hnewref", 0, r); } break; /* handed out, never written */
+            case 4: mk_raw(fid, 1203, 65535); mk_raw(fid, 1204, 65535); if (hk_chance(50)) ro_delete(fid, &ro[nro - 1]); break;
+            case 5: mk_raw(fid, 1203, 65534); { int32 vs = vd_attach(fid, &o); if (vs != FAIL) vd_finish(fid, vs, o); } break;
+            default: mk_raw(fid, 1203, 65535); if ((fid = ref_reopen(fid, path, cache_on)) == FAIL) return; break;
+        }
+        if (ref_dead) { Vend(fid); Hclose(fid); remove(path); continue; }
+        if (maxref_of(fid) != 65535) hk_fail("limits-setup", "maxref %d after the limit step", maxref_of(fid));
+        /* 3: beyond the limit */
+        int n3 = (int)hk_range(6, 30);
+        for (int i = 0; i < n3 && !ref_dead; i++) { if (hk_chance(4)) { if ((fid = ref_reopen(fid, path, cache_on)) == FAIL) return; } else ref_op(fid); }
+        if (ref_dead) { Vend(fid); Hclose(fid); remove(path); hk_stat("refhist_rounds_cut", 1); continue; }
+        t_refstate(fid);
+        int bad = ro_verify(fid, "after the history");
+        if ((fid = ref_reopen(fid, path, cache_on)) == FAIL) return;
+        if (!bad) bad = ro_verify(fid, "after close and reopen");
+        /* still usable: one more object of each kind */
+        if (!bad) {
+            int32 vs = vd_attach(fid, &o); if (vs != FAIL) vd_finish(fid, vs, o);
+            int32 vg = vg_attach(fid, &o); if (vg != FAIL) vg_finish(fid, vg, o);
+            ro_verify(fid, "after the follow-up objects");
+            if (hk_chance(35)) { two_vgroups(fid); if (!ref_dead) ro_verify(fid, "after two vgroups open at once"); }
+        }
+        Vend(fid);
+        if (Hclose(fid) == FAIL) hk_fail("limits-close-failed", "refhist: Hclose");
+        remove(path);
+        hk_stat("refhist_rounds", 1);
+    }
+}
+
+/* exhaustion: a few real objects with history, then every other number taken by a small descriptor, in an order that is NOT ascending; the holes
+   are filled through the object APIs (each answer predicted by the model), then 1-2 calls at exhaustion must be refused and change nothing */
+static const char *sdx_path;
+/* 10 + 1 (SDcreate succeeded) + 2 (SDend failed) + 4 * (NDG number of the new data set) */
+static int probe_sd_exhausted(long unused)
+{
+    (void)unused;
+    int32 sd = SDstart(sdx_path, DFACC_RDWR);
+    if (sd == FAIL) return 1;
+    int32 dims[1] = {3};
+    int32 sds = SDcreate(sd, "ds", DFNT_INT32, 1, dims);
+    int ref = sds == FAIL ? 0 : (int)SDidtoref(sds);
+    if (sds != FAIL) SDendaccess(sds);
+    int e = SDend(sd);
+    return 10 + (sds != FAIL) + 2 * (e == FAIL) + 4 * (ref & 0xffff);
+}
+static const char *exh_api[] = {"hnewref", "vsattach", "vattach", "grcreate", "sdcreate"};
+static void case_refexh(int k)
+{
+    const char *path = casefile("refx", k);
+    int32 fid = Hopen(path, DFACC_CREATE, 512);
+    if (fid == FAIL) { hk_fail("limits-setup", "Hopen"); return; }
+    Vstart(fid);
+    nro = 0; ro_serial = 0; ref_dead = 0;
+    robj_t *o;
+    t_refinit(fid);
+    /* real objects first, some deleted again so that later descriptors take their slots */
+    int nreal = (int)hk_range(3, 7);
+    for (int i = 0; i < nreal; i++) {
+        int c = (int)hk_range(0, 2);
+        if (c == 0) mk_raw(fid, 1201, 0);
+        else if (c == 1) { int32 vs = vd_attach(fid, &o); if (vs != FAIL) vd_finish(fid, vs, o); }
+        else { int32 vg = vg_attach(fid, &o); if (vg != FAIL) vg_finish(fid, vg, o); }
+    }
+    for (int i = 0; i < 2; i++) if (hk_chance(60) && (o = ro_pick_live()) != NULL) ro_delete(fid, o);
+    /* holes */
+    int holes[3], nh = (int)HK_PICK(((int[]){0, 0, 1, 2, 3}));
+    int last65535 = (k / 64) % 3 == 1;   /* every third case: 65535 itself is the last free number (it was in use once: the counter is at its limit) */
+    if (last65535 && nh == 0) nh = 1;
+    for (int i = 0; i < nh; i++) {
+        int h = (i == 0 && last65535) || hk_chance(8) ? 65535 : hk_chance(8) ? (int)hk_range(3000, 65534) : (int)hk_range(2, 3000);
+        int dup = used_now(fid, h); for (int j = 0; j < i; j++) if (holes[j] == h) dup = 1;
+        if (dup) { nh = i; break; }
+        holes[i] = h;
+    }
+    /* the order in which the numbers are taken */
+    static int order[65536];
+    int n = 0, mode = (int)hk_range(0, 3);
+    if (mode == 0) for (int r = 65535; r >= 1; r--) order[n++] = r;                                   /* descending */
+    else if (mode == 2) for (int b = 65; b >= 0; b--) for (int r = b * 1000 + 1; r <= (b + 1) * 1000 && r <= 65535; r++) order[n++] = r;   /* blocks, last block first */
+    else {                                                                                             /* ascending, the first 4000 shuffled */
+        for (int r = 1; r <= 65535; r++) order[n++] = r;
+        for (int i = 3999; i > 0; i--) { int j = (int)hk_range(0, i); int t = order[i]; order[i] = order[j]; order[j] = t; }
+    }
+    static unsigned char made_then_deleted[65536];
+    memset(made_then_deleted, 0, sizeof made_then_deleted);
+    ref_count(HAatom_object(fid));
+    static int inuse0[65536];
+    memcpy(inuse0, rcount, sizeof inuse0);
+    int bad = 0;
+    for (int i = 0; i < n && !bad; i++) {
+        int r = order[i], ishole = 0;
+        for (int j = 0; j < nh; j++) if (holes[j] == r) ishole = 1;
+        if (inuse0[r]) continue;
+        /* a hole is a number that was never used, or (always for 65535: the counter must reach its limit) one that was used and deleted */
+        if (ishole && r != 65535 && hk_chance(50)) continue;
+        int32 aid = Hstartwrite(fid, 1200, (uint16)r, 0);
+        if (aid == FAIL) { hk_fail("limits-ref-create", "Hstartwrite(1200,%d,0) failed", r); bad = 1; break; }
+        Hendaccess(aid);
+        if (ishole) made_then_deleted[r] = 1;
+    }
+    /* mode 3: part of the low numbers deleted and created again in another order: they take the freed slots */
+    if (mode == 3 && !bad) {
+        int again[400], na = 0;
+        for (int i = 0; i < 400; i++) { int r = (int)hk_range(2, 3000); int skip = inuse0[r] || made_then_deleted[r]; for (int j = 0; j < na; j++) if (again[j] == r) skip = 1; for (int j = 0; j < nh; j++) if (holes[j] == r) skip = 1; if (!skip) again[na++] = r; }
+        for (int i = 0; i < na; i++) Hdeldd(fid, 1200, (uint16)again[i]);
+        for (int i = na - 1; i >= 0; i--) { int32 aid = Hstartwrite(fid, 1200, (uint16)again[i], 0); if (aid != FAIL) Hendaccess(aid); }
+    }
+    for (int r = 1; r <= 65535 && !bad; r++) if (made_then_deleted[r] && Hdeldd(fid, 1200, (uint16)r) == FAIL) { hk_fail("limits-ref-create", "Hdeldd(1200,%d)", r); bad = 1; }
+    if (bad) { Vend(fid); Hclose(fid); remove(path); return; }
+    if (maxref_of(fid) != 65535) hk_fail("limits-setup", "maxref %d after the fill", maxref_of(fid));
+    t_refinit(fid);
+    /* the holes are filled, lowest first, by objects of every kind */
+    for (int guard = 0; guard < 6 && !ref_dead; guard++) {
+        int lf = lowest_free(fid);
+        if (!lf) break;
+        int c = (int)hk_range(0, 2);
+        if (c == 0) mk_raw(fid, 1201, 0);
+        else if (c == 1) { int32 vs = vd_attach(fid, &o); if (vs != FAIL) vd_finish(fid, vs, o); }
+        else { int32 vg = vg_attach(fid, &o); if (vg != FAIL) vg_finish(fid, vg, o); }
+        if (!ref_dead && !ro_ref_live(lf)) hk_fail("limits-ref-not-lowest-free", "the new object did not get the free number %d", lf);
+    }
+    if (ref_dead) { Vend(fid); Hclose(fid); remove(path); return; }
+    /* every number is in use now: 1-2 requests, each must be refused and leave everything as it is */
+    int nexp = 1 + hk_chance(40), sd_after = 0;
+    for (int i = 0; i < nexp && !ref_dead; i++) {
+        int api = i == 0 ? (k / 64) % 5 : (int)hk_range(0, 3);   /* every fifth case asks SD (three searches: SDcreate, SDend) */
+        char key[64]; snprintf(key, sizeof key, "limits-noref-not-refused:%s", exh_api[api]);
+        if (api == 4) { sd_after = 1; continue; }   /* SD opens the file itself: after the Hclose below */
+        int got = 0;
+        if (api == 0) got = Hnewref(fid);
+        else if (api == 1) { int32 vs = VSattach(fid, -1, "w"); if (vs != FAIL) { got = (int)VSQueryref(vs); if (got <= 0) got = -1; VSdetach(vs); } }
+        else if (api == 2) { int32 vg = Vattach(fid, -1, "w"); if (vg != FAIL) { got = (int)VQueryref(vg); if (got <= 0) got = -1; Vdetach(vg); } }
+        else {
+            int32 gr = GRstart(fid); int32 dims[2] = {3, 2};
+            int32 ri = GRcreate(gr, "img", 1, DFNT_UINT8, MFGR_INTERLACE_PIXEL, dims);
+            if (ri != FAIL) { got = (int)GRidtoref(ri); if (!got) got = -1; GRendaccess(ri); }
+            GRend(gr);   /* may fail as well: GRend itself wants a number for the GR vgroup of the file */
+        }
+        t_refalloc(fid, exh_api[api], 0, got < 0 ? 0 : got);
+        if (got) { hk_fail(key, "every reference number is in use but %s succeeded (number %d)", exh_api[api], got < 0 ? 0 : got); ref_dead = 1; }
+        hk_stat("refexh_refused", got == 0);
+    }
+    if (ref_dead) { Vend(fid); Hclose(fid); remove(path); return; }
+    t_refstate(fid);
+    bad = ro_verify(fid, "at exhaustion");
+    Vend(fid);
+    if (Hclose(fid) == FAIL) { hk_fail("limits-close-failed", "refexh: Hclose"); remove(path); return; }
+    if (sd_after && !bad) {
+        /* in a child: an SD session that cannot be closed (SDend fails) would stay in the open-file table of this process */
+        sdx_path = path;
+        int pr = probe(probe_sd_exhausted, 0);
+        if (pr < 10) hk_fail(pr < 0 ? "limits-noref-crash:sdcreate" : "limits-reopen-failed", "SD session on a file whose reference numbers are all in use: probe result %d", pr);
+        else {
+            int created = (pr - 10) & 1, endfail = (pr - 10) & 2;
+            printf("T limits refalloc sdcreate 0 => %d 65535\n", created ? (pr - 10) >> 2 : 0);   /* the number the new data set got: 0 also when SDcreate went on without one (finding) */
+            if (created) hk_fail("limits-noref-not-refused:sdcreate", "every reference number is in use but SDcreate succeeded (NDG number %d)%s", (pr - 10) >> 2, endfail ? ", SDend fails" : "");
+            else if (endfail) hk_fail("limits-close-failed", "SDend fails after a refused SDcreate");
+            hk_stat("refexh_sd", 1);
+        }
+    }
+    fid = Hopen(path, DFACC_RDWR, 0);
+    if (fid == FAIL) { hk_fail("limits-reopen-failed", "refexh: Hopen after close"); remove(path); return; }
+    Vstart(fid);
+    t_refreopen(fid);
+    if (!bad) bad = ro_verify(fid, "at exhaustion, after close and reopen");
+    /* usable afterwards: one number is given back, the next object gets exactly that one */
+    if (!bad) {
+        int d = 0;
+        for (int tries = 0; tries < 50 && !d; tries++) { int r = (int)hk_range(2, 3000); if (Hexist(fid, 1200, (uint16)r) != FAIL && rcount[r] == 1) d = r; }
+        if (d) {
+            if (Hdeldd(fid, 1200, (uint16)d) == FAIL) hk_fail("limits-followup", "Hdeldd(1200,%d) at exhaustion", d);
+            t_refdel(d, 1);
+            int32 vs = vd_attach(fid, &o);
+            if (vs != FAIL) { vd_finish(fid, vs, o); if (o->ref != d) hk_fail("limits-ref-not-lowest-free", "number %d was given back, the new vdata got %d", d, o->ref); }
+            else hk_fail("limits-followup", "number %d was given back but VSattach(-1,\"w\") still fails", d);
+            if (!ref_dead) ro_verify(fid, "after the follow-up object");
+        }
+    }
+    Vend(fid);
+    if (Hclose(fid) == FAIL) hk_fail("limits-close-failed", "refexh: second Hclose");
+    remove(path);
+    hk_stat("refexh", 1);
+}
+
 /* ------------------------------------------------------------------------------------------------ vgroup members */
 static void case_vgins(int k)
 {
@@ -877,6 +1381,111 @@ static void case_sdrank(int k)
     hk_stat("sdrank", 1);
 }
 
+/* ------------------------------------------------------------------------------------------------ SD: data sets per file, attributes per list */
+static void case_sdcount(int k)
+{
+    const char *path = casefile("sdcnt", k);
+    int32 sd = SDstart(path, DFACC_CREATE);
+    if (sd == FAIL) { hk_fail("limits-setup", "SDstart"); return; }
+    int32 dims[1] = {2}, start[1] = {0}; int16 v[2] = {11, 22}, back[2] = {0};
+    int what = (int)hk_range(0, 2);   /* 0: data sets of the file, 1: attributes of a data set, 2: attributes of the file */
+    int32 first = SDcreate(sd, "first", DFNT_INT16, 1, dims);
+    if (first == FAIL || SDwritedata(first, start, NULL, dims, v) == FAIL) { hk_fail("limits-setup", "first data set"); SDend(sd); remove(path); return; }
+    int expect_ds = 1, expect_at = 0;
+    if (what == 0) {
+        int n0 = (int)HK_PICK(((int[]){4997, 4998, 4999})) ;
+        for (int i = 1; i < n0; i++) { char nm[24]; snprintf(nm, sizeof nm, "v%d", i); int32 s = SDcreate(sd, nm, DFNT_INT8, 1, dims); if (s == FAIL) { hk_fail("limits-valid-refused", "SDcreate #%d fails", i + 1); break; } SDendaccess(s); expect_ds++; }
+        for (int i = 0; i < 4; i++) {
+            int32 nd0 = -1, nd1 = -1, na; SDfileinfo(sd, &nd0, &na);
+            char nm[24]; snprintf(nm, sizeof nm, "edge%d", i);
+            int32 s = SDcreate(sd, nm, DFNT_INT8, 1, dims);
+            printf("T limits sdvar %d => %s\n", (int)nd0, s == FAIL ? "fail" : "ok");
+            SDfileinfo(sd, &nd1, &na);
+            if (s == FAIL && nd1 != nd0) hk_fail("limits-fail-changed-state", "SDcreate failed but the data set count went %d -> %d", (int)nd0, (int)nd1);
+            if (s != FAIL) { if (nd1 != nd0 + 1) hk_fail("limits-sd-count", "SDcreate succeeded, count %d -> %d", (int)nd0, (int)nd1); SDendaccess(s); expect_ds++; }
+            if (nd1 > H4_MAX_NC_VARS) hk_fail("limits-count-beyond-max", "%d data sets in one file", (int)nd1);
+        }
+    }
+    else {
+        int32 target = what == 1 ? first : sd;
+        int n0 = (int)HK_PICK(((int[]){2997, 2998, 2999}));
+        int8 a = 5;
+        for (int i = 0; i < n0; i++) { char nm[24]; snprintf(nm, sizeof nm, "a%d", i); if (SDsetattr(target, nm, DFNT_INT8, 1, &a) == FAIL) { hk_fail("limits-valid-refused", "SDsetattr #%d fails", i + 1); break; } expect_at++; }
+        for (int i = 0; i < 5; i++) {
+            int32 c0 = -1, c1 = -1, x, dm[4], nt; char nb[300];
+            if (what == 1) SDgetinfo(first, nb, &x, dm, &nt, &c0); else SDfileinfo(sd, &x, &c0);
+            /* i == 2: an attribute that exists already is replaced, whatever the count */
+            char nm[24]; snprintf(nm, sizeof nm, i == 2 ? "a0" : "edge%d", i);
+            int r = SDsetattr(target, nm, DFNT_INT8, 1, &a);
+            if (i == 2) { if (r == FAIL) hk_fail("limits-valid-refused", "replacing an attribute fails with %d attributes", (int)c0); }
+            else printf("T limits sdattr %d => %s\n", (int)c0, r == FAIL ? "fail" : "ok");
+            if (what == 1) SDgetinfo(first, nb, &x, dm, &nt, &c1); else SDfileinfo(sd, &x, &c1);
+            if (r == FAIL && c1 != c0) hk_fail("limits-fail-changed-state", "SDsetattr failed but the attribute count went %d -> %d", (int)c0, (int)c1);
+            if (r != FAIL && i != 2) expect_at++;
+            if (c1 > H4_MAX_NC_ATTRS) hk_fail("limits-count-beyond-max", "%d attributes in one list", (int)c1);
+        }
+    }
+    /* usable afterwards */
+    if (SDreaddata(first, start, NULL, dims, back) == FAIL || back[1] != 22) hk_fail("limits-followup", "first data set after the boundary calls");
+    SDendaccess(first);
+    if (SDend(sd) == FAIL) hk_fail("limits-close-failed", "SDend (count case)");
+    sd = SDstart(path, DFACC_READ);
+    if (sd == FAIL) hk_fail("limits-reopen-failed", "SDstart (count case)");
+    else {
+        int32 nd = -1, na = -1, x, dm[4], nt, nat = -1; char nb[300];
+        SDfileinfo(sd, &nd, &na);
+        int32 s = SDselect(sd, 0);
+        if (s == FAIL || SDgetinfo(s, nb, &x, dm, &nt, &nat) == FAIL || strcmp(nb, "first")) hk_fail("limits-followup", "first data set after reopen");
+        else if (SDreaddata(s, start, NULL, dims, back) == FAIL || back[0] != 11 || back[1] != 22) hk_fail("limits-followup", "data of the first data set after reopen");
+        if (nd != expect_ds) hk_fail("limits-sd-count", "%d data sets after reopen, %d created", (int)nd, expect_ds);
+        if ((what == 1 ? nat : what == 2 ? na : 0) != expect_at) hk_fail("limits-sd-count", "%d attributes after reopen, %d set", (int)(what == 1 ? nat : na), expect_at);
+        if (s != FAIL) SDendaccess(s);
+        SDend(sd);
+    }
+    remove(path);
+    hk_stat(what == 0 ? "sdcount_vars" : "sdcount_attrs", 1);
+}
+
+/* ------------------------------------------------------------------------------------------------ descriptors per DD block (int16) */
+static void case_ndds(int k)
+{
+    const char *path = casefile("ndds", k);
+    static const int reqs[] = {32767, 32767, 32766, -1, -32768, 0, 1, 3, 4, 5, 17};
+    int req = HK_PICK(reqs);
+    int32 fid = Hopen(path, DFACC_CREATE, (int16)req);
+    filerec_t *fr = fid == FAIL ? NULL : HAatom_object(fid);
+    printf("T limits ndds %d => ", req);
+    if (fid == FAIL) { printf("fail\n"); FILE *f = fopen(path, "rb"); if (f) { fclose(f); remove(path); } hk_stat("ndds_refused", 1); return; }
+    int eff = fr->ddhead->ndds;
+    printf("%d\n", eff);
+    /* one block is filled to its last descriptor and one more element forces the second block */
+    int n = eff + (int)hk_range(1, 3), made = 0;
+    uint8 b = 9;
+    for (int r = 1; r <= n; r++) {
+        int32 aid = (r % 1000 == 1) ? FAIL : Hstartwrite(fid, 1200, (uint16)r, 0);
+        if (aid != FAIL) Hendaccess(aid);
+        else if (Hputelement(fid, 1200, (uint16)r, &b, 1) == FAIL) { hk_fail("limits-valid-refused", "element %d of %d in a file with %d descriptors per block", r, n, eff); break; }
+        made++;
+    }
+    int nblk = 0; for (ddblock_t *q = fr->ddhead; q; q = q->next) { nblk++; if (q->ndds != eff) hk_fail("limits-ndds-wrap", "DD block %d has %d descriptors, the first has %d", nblk, (int)q->ndds, eff); }
+    if (made == n && nblk != 2) hk_fail("limits-ndds-blocks", "%d descriptors per block, %d elements (+ the version descriptor at close): %d DD blocks", eff, n, nblk);
+    wf_check(fid, "filling a DD block");
+    if (Hclose(fid) == FAIL) { hk_fail("limits-close-failed", "ndds: Hclose"); remove(path); return; }
+    fid = Hopen(path, DFACC_RDWR, 0);
+    if (fid == FAIL) hk_fail("limits-reopen-failed", "ndds: a file with %d descriptors per block", eff);
+    else {
+        fr = HAatom_object(fid);
+        if (fr->ddhead->ndds != eff) hk_fail("limits-ndds-wrap", "after reopen the first DD block has %d descriptors, written with %d", (int)fr->ddhead->ndds, eff);
+        if (Hnumber(fid, 1200) != made) hk_fail("limits-element-lost", "Hnumber = %d, %d elements written", (int)Hnumber(fid, 1200), made);
+        uint8 g = 0; if (Hgetelement(fid, 1200, 1, &g) != 1 || g != 9) hk_fail("limits-followup", "first element after reopen");
+        if (Hputelement(fid, 1201, 1, &b, 1) == FAIL) hk_fail("limits-followup", "new element after reopen");
+        wf_check(fid, "reopen");
+        if (Hclose(fid) == FAIL) hk_fail("limits-close-failed", "ndds: second Hclose");
+    }
+    remove(path);
+    hk_stat("ndds", 1);
+}
+
 /* ------------------------------------------------------------------------------------------------ open files */
 #define MO_MAX 48
 static int mo_nops; static int mo_op[64], mo_arg[64];
@@ -970,12 +1579,12 @@ static void run_case(int k)
 {
     switch (k % 16) {
         case 0: case 1: case 2: case 3: case 4: case 5: case_alloc(k); break;
-        case 6: case_refs(k); break;
+        case 6: switch ((k / 16) % 4) { case 2: case_refhist(k); break; case 3: case_refexh(k); break; default: case_refs(k); break; } break;
         case 7: if ((k / 16) % 3 == 0) case_vgins(k); else case_fdefine(k); break;
-        case 8: case_fdefine(k); break;
+        case 8: if ((k / 16) % 4 == 2) case_ndds(k); else case_fdefine(k); break;
         case 9: case 10: case_setfields(k); break;
         case 11: case 12: case 13: case_names(k); break;
-        case 14: if ((k / 16) % 2) case_sdrank(k); else case_linked(k); break;
+        case 14: if ((k / 16) % 4 == 1) case_sdcount(k); else if ((k / 16) % 2) case_sdrank(k); else case_linked(k); break;
         default: case_maxopen(k); break;
     }
 }
